@@ -1023,7 +1023,7 @@ class Interp(object):
     def hashable(self, k):
         """Keys of native dicts/sets must be concrete."""
         if isinstance(k, (SInt, SBool)):
-            return sym.engine().concretize(k)
+            return sym.engine().concretize(k, what='dictionary key', limit=64)
         if isinstance(k, SBuf):
             if k.is_symbolic():
                 raise Unsupported('symbolic buffer as dictionary key')
